@@ -114,3 +114,42 @@ Proof.
   rewrite exec_cons, IH by (intros H; apply Hn; right; exact H).
   apply step_pool_other. intros ->. apply Hn. left. reflexivity.
 Qed.
+
+(** ** monotone shared state of the wrapper over an arbitrary iterator: the completed flag is never reset and
+    the number of elements the wrapped iterator has yielded never decreases, step by step and hence between
+    any two points of any run (no hypotheses: any kind, any configuration) *)
+Open Scope N_scope.
+Lemma step_flag_mono e c u : s_f (c_sh c) = true -> s_f (c_sh (step e c u)) = true.
+Proof.
+  intros H. unfold step.
+  repeat first
+    [ solve [exact H]
+    | solve [cbn [commit c_sh s_f]; first [reflexivity | exact H | congruence]]
+    | progress unfold finish, call
+    | match goal with |- context [match ?x with _ => _ end] => destruct x eqn:? end ].
+Qed.
+
+Lemma step_cur_mono e c u : s_cur (c_sh c) <= s_cur (c_sh (step e c u)).
+Proof.
+  unfold step.
+  repeat first
+    [ solve [cbn [commit c_sh s_cur with_c with_y with_f with_src ]; lia]
+    | progress unfold finish, call
+    | match goal with |- context [match ?x with _ => _ end] => destruct x eqn:? end ].
+Qed.
+
+Theorem completed_flag_is_permanent : forall e c a b,
+  s_f (c_sh (exec e c a)) = true -> s_f (c_sh (exec e c (a ++ b))) = true.
+Proof.
+  intros e c a b. rewrite exec_app. generalize (exec e c a). clear c a.
+  induction b as [|u b IH]; intros c H; [exact H|].
+  rewrite exec_cons. apply IH, step_flag_mono, H.
+Qed.
+
+Theorem source_cursor_never_rewinds : forall e c a b,
+  s_cur (c_sh (exec e c a)) <= s_cur (c_sh (exec e c (a ++ b))).
+Proof.
+  intros e c a b. rewrite exec_app. generalize (exec e c a). clear c a.
+  induction b as [|u b IH]; intros c; [cbn [exec fold_left]; lia|].
+  rewrite exec_cons. etransitivity; [apply (step_cur_mono e c u)|apply IH].
+Qed.
